@@ -17,7 +17,7 @@ class C14(Prop):
     level_note = 'Trusted: Lean kernel + standard axioms; datetime arithmetic; the virtual clock patches rsocket.lease.datetime.'
     design_ref = '§5 C14'
     rule = ('sequences of LEASE frames (count 0..5, ttl 0..400 ms) and requests of the four request types at non-decreasing virtual times (incl. exactly at expiry), queue size 0/1/3, with '
-            'and without fragmentation, and reconnects in between (each connection starts without a lease), on a client that may also grant leases of its own to the peer at any moment; responder (a server, or a client that grants leases): published leases with counts and time-to-live from 1 ms to the 31-bit maximum incl. sub-second parts, whole days and more than a day; non-trivial = a request was held and later released, refused, or '
+            'and without fragmentation, and reconnects in between (each connection starts without a lease), on a client that may also grant leases of its own to the peer at any moment; responder (a server, or a client that grants leases): published leases with counts and time-to-live from 1 ms to the 31-bit maximum incl. sub-second parts, whole days and more than a day; every request must be accounted for at the end (sent, refused, or still held); non-trivial = a request was held and later released, refused, or '
             'sent under a lease close to expiry; distinct = distinct history')
     assumptions = ['whole-millisecond time-to-live values']
 
@@ -228,6 +228,13 @@ class C14(Prop):
                 fails.append({'signature': 'more-requests-than-granted', 'what': 'lease of %d at %d, %d requests sent under it' % (n, at, k)})
         if case['cap'] == 0 and obs['rejected']:
             fails.append({'signature': 'request-refused-with-unbounded-queue', 'what': str(obs['rejected'])})
+        # "retained ... and released when a lease arrives": every request is on the wire, refused, or still held - none vanishes
+        if not cuts:
+            asked = len([e for e in case['evs'] if e[0] == 'R'])
+            accounted = len(set(tags)) + len(obs['rejected']) + obs['held']
+            if accounted < asked:
+                fails.append({'signature': 'retained-request-lost', 'what': '%d requests made, %d sent, %d refused, %d still held: %d vanished (events %s)' % (
+                    asked, len(set(tags)), len(obs['rejected']), obs['held'], asked - accounted, case['evs'])})
         return fails
 
     def nontrivial(self, case, obs):
